@@ -3,24 +3,24 @@
 import json,re
 rows={
 'C01':("searchToken; default strategy Filter = order-preserving healthy subsequence with exact quorum arithmetic; health; canStopLooking; walk accounting in findInstancesForKey (target = RF + extending instances, completeness without zones, zone quotas charged by non-extending instances); memory safety over a well-formed ring","equality of the walked set with the statement's walk (which instance is met when); locality clause undecided"),
-'C02':("GetReplicationSetForOperation thresholds with and without zone awareness; arithmetic intersection lemmas","pigeonhole step trusted; executors (C10 sequential view / C11 trackers)"),
+'C02':("GetReplicationSetForOperation thresholds with and without zone awareness; arithmetic intersection lemmas; pigeonhole step (cardinality by recursion, induction) and end-to-end share-a-replica / share-a-zone lemmas; tracker counting and decision units","executors themselves (C10 sequential view / C11 bounded)"),
 'C03':("both `mergeWithTime` apply exactly the per-entry join and return exactly the updated entries; join idempotent/commutative/associative under the proviso","lifting to descriptors/delivery orders (pointwise, not mechanised)"),
-'C04':("local removal -> tombstone in the change (ring and partition ring); tombstoneWins; RemoveTombstones (both descriptors); read path strips tombstones","virtual-clock hypothesis; cleanupObsoleteEntries"),
+'C04':("local removal -> tombstone in the change (ring and partition ring); tombstoneWins; RemoveTombstones (both descriptors); read path strips tombstones; first stored value keeps its tombstones (computeNewValue); store GC drops only deleted keys","virtual-clock hypothesis"),
 'C05':("normalizeIngestersMap; conflictingTokensExist (no false negative); resolveConflicts (unique minimal winner, total order lemmas, sorted disjoint lists); memory frames (no in-place write to shared token storage); index construction: getTokensInfo, GetTokens, getZones, setRingStateFromDesc establish ringRep/zonesRep","replica-level agreement; byZoneRep; MergeTokens assumed a sorted merge"),
-'C06':("Invalidates; state parser bounds; bad messages never reach the store; every parsed full-state entry handled on its own; stored => notified and rebroadcast","convergence (liveness): bounded only"),
-'C07':("per-backend compare-and-write step; consul/etcd client loops; memberlist CAS loop and single attempt (failure leaves the store unchanged); prefix/multi forwarding","serialisation of the steps (mutex atomicity) assumed; history-level chain lemma argued"),
-'C08':("every lifecycler CAS callback, for every input ring: frame on other entries, own entry content, legal state edges; auto-join tokens chosen inside the callback for the ring version handed in and not taken","heartbeat monotonicity over time, token uniqueness at activation: bounded"),
+'C06':("Invalidates; state parser bounds; bad messages never reach the store; every parsed full-state entry handled on its own; stored => notified and rebroadcast; when an update is stored (content / tombstone stripping / deletion flag)","convergence (liveness): bounded only"),
+'C07':("per-backend compare-and-write step; consul/etcd client loops; memberlist CAS loop and single attempt (failure leaves the store unchanged); prefix/multi forwarding; the store keeps a copy of the caller's value","serialisation of the steps (mutex atomicity) assumed; history-level chain lemma argued"),
+'C08':("every lifecycler CAS callback, for every input ring: frame on other entries, own entry content, legal state edges; auto-join tokens chosen inside the callback for the ring version handed in and not taken; readiness (tokens held, ring / own entry checked, latch)","heartbeat monotonicity over time, token uniqueness at activation: bounded"),
 'C09':("initRing for every ring x tokens-file content; re-registration; an accepted transition is remembered whether or not the write succeeded","reaching ACTIVE (liveness); tokens-file atomicity"),
-'C10':("DoBatchWithOptions skeleton (cleanup once, >=1 replica call at the wait, grouping, per-key countdown/tolerances); batchTracker.record / recordError as sequential counters (fail fast exactly at tolerance or last replica; done exactly at threshold)","interleavings of concurrent record calls, channel delivery: bounded only"),
+'C10':("DoBatchWithOptions skeleton (cleanup once, >=1 replica call at the wait, grouping, per-key countdown/tolerances); batchTracker.record / recordError as sequential counters (fail fast exactly at tolerance or last replica; done exactly at threshold); cleanup waiter spawned after every replica call","interleavings of concurrent record calls, channel delivery: bounded only"),
 'C11':("default/zone-aware/in-flight trackers as sequential data structures","DoUntilQuorum executors (generics, goroutines): bounded only"),
-'C12':("instance ring: shard members are ring entries, read-only rule, walk memory safety; partition ring: membership, whole-ring request, walk memory safety","determinism, size, containment, +-1 consistency, look-back superset: bounded only"),
+'C12':("instance ring: shard members are ring entries, read-only rule, walk memory safety; partition ring: membership over the RETURNED ring, sub-descriptor (WithPartitions), constructor, whole-ring request, walk memory safety","determinism, size, containment, +-1 consistency, look-back superset: bounded only"),
 'C13':("RingCompare result <=> field-wise equality; field partition; look-back cache validity interval; plain cache hit refreshes every entry; cache field writers","index footprints, cache insertion/clearing: bounded"),
-'C14':("the property statement itself for both rings: GetTokenRangesForInstance, GetTokenRangesForPartition, IncludesKey, searchToken","relation to lookups that skip inactive partitions (bounded on all-active rings)"),
-'C15':("ActivePartitionForKey; edge table; state changes; lifecycler callbacks; GetReplicationSetsForOperation","multi-lifecycler histories via C07; liveness undecided"),
+'C14':("the property statement itself for both rings: GetTokenRangesForInstance, GetTokenRangesForPartition, IncludesKey, searchToken; partition ring constructor (lookup arrays describe the descriptor)","relation to lookups that skip inactive partitions (bounded on all-active rings); sub-ring token lists (mergeTokenGroups): bounded; strict ascent of partition tokens: precondition"),
+'C15':("ActivePartitionForKey; edge table; state changes; lifecycler callbacks; GetReplicationSetsForOperation; 'active' in the routing arrays = descriptor state (constructor contract)","multi-lifecycler histories via C07; liveness undecided"),
 'C16':("random generator; spread-minimising filter; first instance tokens; calculateNewToken congruence","generateTokensByInstanceID (floats, heap): bounded, incl. a 1300-instance zone"),
-'C17':("switchState sole writer; legal edges at all call sites; main goroutine ordering; StartAsync/StopAsync/awaitState; AddListener registers unless terminal; manager transition (healthy waiters released exactly when reached or unreachable)","listener delivery order, concurrent races: bounded"),
-'C18':("AddDependency acyclicity; orderedDeps topological; init bookkeeping (at most once, shared map); start/stop ordering at the awaiting calls","exactly-once under latencies: bounded"),
-'C19':("versioned keys; snappy layer; reference backend; LRU layer write-through; server list resolved in natural order; jumpHash range","LRU contents/expiry, stack composition, move-only clause: bounded"),
+'C17':("switchState sole writer; legal edges at all call sites; main goroutine ordering; StartAsync/StopAsync/awaitState; AddListener registers unless terminal; manager transition (healthy waiters released exactly when reached or unreachable); timer / idle running functions (first iteration error returned); StopAsync cancels exactly a started service","listener delivery order, concurrent races: bounded"),
+'C18':("AddDependency acyclicity; orderedDeps topological; init bookkeeping (at most once, shared map); start/stop ordering at the awaiting calls; stop-dependency list = every module from which the module is reachable","exactly-once under latencies: bounded"),
+'C19':("versioned keys; snappy layer; reference backend; LRU layer write-through incl. the local copy (replaced by every accepted store, dropped by delete); server list resolved in natural order; jumpHash range","LRU contents/expiry, stack composition, move-only clause: bounded"),
 'C20':("character table; ValidTenantID iff; NormalizeTenantIDs; cuts; TenantID/parseTenantIDs incl. same-tenant clause","resolver agreement across APIs, transports: bounded"),
 }
 lines=["| id | fns | obl | proved (all inputs) | bounded stand-in only / assumed |","|---|---|---|---|---|"]
